@@ -113,6 +113,22 @@ def isolate_file(ck):
     return path
 
 
+def noinflate_file(ck):
+    """Routes of the recorded findings are not replayed on inflated operands (they are wrong on the small
+    operands already, and several of them write outside their buffers)."""
+    path = os.path.join(ck.work, "noinflate.txt")
+    aslist = lambda x: x if isinstance(x, list) else [x]
+    with open(path, "w") as f:
+        for k in ck.known:
+            m = k.get("match", {})
+            if "op" in m and "route" in m:
+                for op in aslist(m["op"]):
+                    for st in aslist(m.get("storage", ["rect", "sqg", "sym", "spe", "spc"])):
+                        for rt in aslist(m["route"]):
+                            f.write("%s|%s|%s\n" % (op, st, rt))
+    return path
+
+
 def classify(rec):
     """The keys on which known findings are matched (narrow: operation + route + storage + shape class)."""
     return {"kind": rec.get("kind"), "op": rec.get("op"), "storage": rec.get("storage"), "route": rec.get("route"),
@@ -167,7 +183,7 @@ def machine_phase(ck, exe, tag, maxlen, init, ops, nbuckets, harness_opts=(), em
             continue
         o = b.replace(".ndjson", ".out")
         outs.append(o)
-        jobs.append(([exe, "machine", b, o, "isolate=" + iso] + list(harness_opts), b))
+        jobs.append(([exe, "machine", b, o, "isolate=" + iso, "noinflate=" + noinflate_file(ck)] + list(harness_opts), b))
     t0 = time.time()
     res = run_parallel(jobs, nproc or NPROC)
     for label, rc, err in res:
